@@ -24,6 +24,8 @@ CatAll ==
        [] d = "r:wyear:x3"       -> R("wyear", "C", "x3")
        [] d = "r:wyear:shuffled" -> R("wyear", "C", "shuffled")
        [] d = "r:wyear:partnan"  -> R("wyear", "C", "partnan")
+       [] d = "r:wyear:partzero" -> R("wyear", "C", "partzero")
+       [] d = "r:wpart:partzero" -> R("wpart", "C", "partzero")
        [] d = "r:wyear:allnan"   -> R("wyear", "C", "allnan")
        [] d = "r:wyear:absent"   -> R("wyear", "C", "absent")
        [] d = "r:wpart:orig"     -> R("wpart", "C", "orig")
